@@ -1,5 +1,6 @@
 import PyPhysim.Proofs.C10Inv
 import PyPhysim.Generated.C10Effects
+import PyPhysim.Proofs.CacheEffects
 import PyPhysim.Model.C10Toy
 /-!
 # C10 — the effect of the cache machine's `step` on the eight attributes, as a finite table
@@ -420,11 +421,34 @@ def probes : List (TSt × Op (List Rat) Rat) :=
    ((run Cfg.fixed toyProbe 2 (State.init _ _) [.setFilters (some [1, 1]) none]).1, .readW),
    (probeFresh, .readWH), (probeFresh, .readFullWH), (probeFresh, .readFullW)]
 
+/-- what each probe changes: (operation kind, fields whose value differs afterwards) -/
+def probeChanges : List (Kind × List Fld) :=
+  probes.map fun p => (p.2.kind, changed p.1 (step Cfg.fixed toyProbe 2 p.1 p.2).1)
+
+/-- the probes evaluated (by the kernel, on exact rationals) -/
+theorem probeChanges_eq : probeChanges =
+    [(.setP, [.pow, .fullF, .fullWH, .fullW]),
+     (.randomizeF, [.ns, .pow, .prec, .fullF, .fullWH, .fullW]),
+     (.setPrecoders, [.ns, .pow, .prec, .fullF, .fullWH, .fullW]),
+     (.setFilters, [.w, .wH, .fullWH, .fullW]),
+     (.solve, [.ns, .pow, .prec, .fullF, .w, .wH, .fullWH, .fullW]),
+     (.clear, [.ns, .pow, .prec, .fullF, .w, .wH, .fullWH, .fullW]),
+     (.readFullF, [.fullF]), (.readW, [.w]), (.readWH, [.wH]),
+     (.readFullWH, [.fullF, .wH, .fullWH]), (.readFullW, [.fullF, .wH, .fullWH, .fullW])] := by
+  decide +kernel
+
+/-- every field the table lists for an operation occurs in `tbl` for that operation -/
+def covers (tbl : List (Kind × List Fld)) : Bool :=
+  Kind.all.all fun k => (effect k).touched.all fun x => tbl.any fun e => e.1 == k && e.2.contains x
+
 /-- every field the table lists for an operation is really changed by that operation on one of
     the probes: the table is not an over-approximation -/
-def tight : Bool :=
-  Kind.all.all fun k => (effect k).touched.all fun x =>
-    probes.any fun p => p.2.kind == k && (changed p.1 (step Cfg.fixed toyProbe 2 p.1 p.2).1).contains x
+def tight : Bool := covers probeChanges
+
+theorem tight_true : tight = true := by
+  unfold tight
+  rw [probeChanges_eq]
+  decide
 
 end Tight
 
